@@ -1,4 +1,4 @@
-"""PROTOTYPE C03: reported diff == change on disk (per codemod step, composed), unchanged files byte-identical."""
+"""C03: reported diff == change on disk (per codemod step, composed), unchanged files byte-identical."""
 import base64, collections, hashlib, json, os, random, sys
 from vf import corpus, gen, oracles as O
 from vf.checks import grid
@@ -15,7 +15,31 @@ MANIFESTS = {
     "setup_py": {"setup.py": b'from setuptools import setup\nsetup(\n    name="x",\n    install_requires=[\n        "requests",\n    ],\n)\n'},
     "setup_cfg": {"setup.cfg": b"[metadata]\nname = x\n\n[options]\ninstall_requires =\n    requests\n    flask\n"},
     "setup_cfg_crlf": {"setup.cfg": b"[options]\r\ninstall_requires =\r\n    requests\r\n"},
+    # manifests that are not UTF-8 (PowerShell's `pip freeze > requirements.txt` writes UTF-16 with a BOM)
+    "req_utf16": {"requirements.txt": "requests\nflask==2.0\n".encode("utf-16")},
+    "req_utf16_crlf": {"requirements.txt": "requests\r\nflask==2.0\r\n".encode("utf-16")},
+    "req_latin1": {"requirements.txt": "requests  # d\xe9pendance\nflask\n".encode("latin-1")},
+    "req_utf8_bom": {"requirements.txt": b"\xef\xbb\xbfrequests\nflask\n"},
+    "setup_py_crlf": {"setup.py": b'from setuptools import setup\r\nsetup(\r\n    name="x",\r\n    install_requires=[\r\n        "requests",\r\n    ],\r\n)\r\n'},
+    "pyproject_crlf": {"pyproject.toml": b'[project]\r\nname="x"\r\ndependencies = [\r\n  "requests",\r\n]\r\n'},
+    "two_manifests": {"requirements.txt": b"requests\n", "setup.cfg": b"[options]\ninstall_requires =\n    requests\n"},
 }
+# a manifest that is also an ordinary source file other codemods rewrite
+SETUP_PY_WITH_TRIGGERS = b"""from setuptools import setup
+
+def extras(acc=[]):
+    acc.append("x")
+    return acc
+
+KINDS = set(["a", "b"])
+
+setup(
+    name="x",
+    install_requires=[
+        "requests",
+    ],
+)
+"""
 DEP_CODEMODS = {"pixee:python/use-defusedxml": "import xml.sax\nxml.sax.parse('f')\n", "pixee:python/harden-pickle-load": "import pickle\npickle.load(open('f','rb'))\n",
                 "pixee:python/flask-enable-csrf-protection": "from flask import Flask\napp = Flask(__name__)\n"}
 
@@ -30,6 +54,14 @@ def plan(tier, seed):
             files = {"app.py": b64(src.encode())}; files.update({k: b64(v) for k, v in mf.items()})
             jobs.append({"id": f"manifest:{mk}:{cid}", "cid": cid, "labels": {"app.py": ("module", "plain", "lf"), **{k: ("manifest", mk, "") for k in mf}}, "files": files,
                          "argv": ["{proj}", "--output", "{out}", "--codemod-include", cid], "monitors": {"snap": True}})
+    # the manifest is also a source file: dependency writers and libcst codemods touch the same setup.py in one run, in every order
+    import itertools as _it
+    trio = ["pixee:python/use-defusedxml", "pixee:python/fix-mutable-params", "pixee:python/use-set-literal"]
+    orders = list(_it.permutations(trio)) + [("pixee:python/harden-pickle-load", "pixee:python/fix-mutable-params"), ("pixee:python/fix-mutable-params", "pixee:python/harden-pickle-load", "pixee:python/use-set-literal")]
+    for q, ks in enumerate(orders if tier != "quick" else orders[:4] + orders[-2:]):
+        files = {"setup.py": b64(SETUP_PY_WITH_TRIGGERS), "app.py": b64(b"import xml.sax\nimport pickle\nxml.sax.parse('f')\npickle.load(open('f', 'rb'))\n")}
+        jobs.append({"id": f"manifest-is-source:{q}", "cid": ",".join(ks), "labels": {"setup.py": ("manifest-is-source", "setup_py", ""), "app.py": ("module", "plain", "lf")}, "files": files,
+                     "argv": ["{proj}", "--output", "{out}", "--codemod-include", ",".join(ks)], "monitors": {"snap": True}})
     # sequences on one shared file + a multi-file project
     recs = [r for r in corpus.load() if r["codemod"].startswith("pixee:") and r["input"] != r["expected"] and not r["files"] and not corpus.is_semgrep_detected(r["codemod"])]
     by = collections.defaultdict(list)
@@ -60,7 +92,7 @@ def classify(path, before, after, labels, detail):
         if b"\x00" in before: return "nul-normalised"
         if lab and lab[0] == "manifest":
             if b"\r\n" in before and b"\r\n" not in after: return "manifest-crlf"
-            if path.endswith("pyproject.toml") and "EOF" in detail: return "pyproject-phantom-context"
+            if path.endswith("pyproject.toml") and detail.startswith("PHANTOM-ONLY"): return "pyproject-phantom-context"
         if b"\r" in before.replace(b"\r\n", b""): return "cr-only"
     return "diff-mismatch/" + (lab[0] if lab else "?")
 
@@ -101,6 +133,12 @@ def judge(job, res):
                 if not ok: detail = "patched text differs from disk"
             except O.PatchError as ex:
                 ok = False; detail = str(ex)
+                if path.endswith("pyproject.toml") and "beyond EOF" in detail:
+                    # tolerate only the phantom trailing context line; anything else about the diff must still be right
+                    try:
+                        got, notes = O.apply_unified(bt, css[path][0]["diff"], strict=False)
+                        detail = "PHANTOM-ONLY " + detail if O.same_mod_final_newline(got, at) else "patched text differs from disk (beyond the phantom context line)"
+                    except O.PatchError as ex2: detail = str(ex2)
             if ok: st["patch_ok"] += 1
             else:
                 key = classify(path, b, a, job["labels"], detail)
